@@ -212,7 +212,9 @@ impl<T: Qcow2IoOps> Qcow2Dev<T> {
             } else {
                 // the top device is asking for read, which is usually
                 // caused by top device resize, so simply fake we provide
-                // data requested
+                // data requested: everything beyond the end of this
+                // backing image reads as zeros
+                buf.fill(0);
                 return Ok(buf.len());
             }
         }
@@ -246,17 +248,22 @@ impl<T: Qcow2IoOps> Qcow2Dev<T> {
 
         debug_assert!((len & bs_mask) == 0);
 
+        // never touch more than the clamped length; the part which is reported
+        // as read beyond the end of one backing image reads as zeros
+        let (buf, tail) = buf.split_at_mut(len);
+        if extra != 0 {
+            tail.fill(0);
+        }
+
         if len == 0 {
             // less than one block is left before the end of the image
             return Ok(extra);
         }
 
         // `offset` and `len` are validated and clamped now, so `offset + len`
-        // can't overflow and `len` isn't zero; never touch more than the
-        // clamped length
+        // can't overflow and `len` isn't zero
         let single =
             (offset >> info.cluster_bits()) == ((offset + (len as u64) - 1) >> info.cluster_bits());
-        let (buf, _) = buf.split_at_mut(len);
 
         let done = if single {
             let l2_entry = self.get_l2_entry(offset).await?;
